@@ -3,7 +3,7 @@
 # Every check must stay silent (OK). Prints one line per (patch, check) that is not OK.
 set -u
 REPO=${REPO:-/repo}; export VERIF_REPO=$REPO
-cd /verif
+cd ${VDIR:-/verif}
 PATCHES=("$@"); [ ${#PATCHES[@]} -eq 0 ] && PATCHES=(mutants/silent/*.diff)
 IDS=$(ls rules | sed -n 's/^c\([0-9][0-9]\)\.py$/C\1/p')
 bad=0
